@@ -32,3 +32,46 @@ pub fn probe() {
     assert_send_sync::<DArray<true>>();
     trees!(u8, u16, u32, u64, usize, u128);
 }
+
+fn is_send_sync<T: Send + Sync>(_: &T) {}
+
+/// The iterator / view types handed out by the structures (type-checked only, never run): a
+/// view created by one thread must be movable to and shareable with another one.
+macro_rules! tree_iters {
+    ($($tree:ty),*) => {$(
+        {
+            let t: $tree = Default::default();
+            is_send_sync(&t.iter());
+            is_send_sync(&(&t).into_iter());
+            is_send_sync(&t.clone().into_iter());
+        }
+    )*};
+}
+
+pub fn probe_iterators() {
+    tree_iters!(QWT256<u8>, QWT512Pfs<u64>, HQWT256<u16>, HQWT512Pfs<u32>, WT<u8>, HWT<u128>);
+    let bv = BitVector::default();
+    is_send_sync(&bv.iter());
+    is_send_sync(&bv.ones());
+    is_send_sync(&bv.zeros());
+    is_send_sync(&bv.ones_with_pos(0));
+    is_send_sync(&(&bv).into_iter());
+    is_send_sync(&bv.clone().into_iter());
+    let bvm = BitVectorMut::default();
+    is_send_sync(&bvm.iter());
+    is_send_sync(&bvm.ones());
+    is_send_sync(&bvm.zeros());
+    let da = DArray::<true>::default();
+    is_send_sync(&da.iter());
+    is_send_sync(&da.ones());
+    is_send_sync(&da.zeros());
+    let qv = QVector::default();
+    is_send_sync(&qv.iter());
+    is_send_sync(&(&qv).into_iter());
+    is_send_sync(&qv.clone().into_iter());
+    let rs = RSQVector256::default();
+    is_send_sync(&rs.iter());
+    is_send_sync(&(&rs).into_iter());
+    is_send_sync(&rs.clone().into_iter());
+    assert_send_sync::<QVectorBuilder>();
+}
